@@ -24,9 +24,9 @@ import concurrent.futures
 ID = "C30"
 LEVEL = "model_checking"
 RULE = ("state = (C unit, target, opt level, configuration (PYTHONHASHSEED, allocator, heap padding), in-process history of compile "
-        "operations); quick: complete sub-grid seeds {0,1} x {pymalloc, malloc} x pad {0,17}, 6 targets, 44 units x levels {0,2}, script "
-        "contexts after-two-others / same-twice / other-target-first, plus all depth-2 words over {P,Q,X} ending in P from a pristine "
-        "process; thorough: seeds {0..3} x {pymalloc, malloc} x pad {0,1,17,4099}, 10 targets, 51 units (3 heaviest only in the 8 "
+        "operations); quick: complete sub-grid seeds {0,1} x {pymalloc, malloc} x pad {0,17}, 6 targets, 46 C units + 1 asm unit x levels "
+        "{0,2}, script contexts after-two-others / same-twice / other-target-first, plus all depth-2 words over {P,Q,X} ending in P from a "
+        "pristine process (target pair rotated by configuration number + VERIF_SEED); thorough: seeds {0..3} x {pymalloc, malloc} x pad {0,1,17,4099}, 10 targets, 51 units (3 heaviest only in the 8 "
         "configurations at distance <= 1 from the reference), all words of depth 3 (configurations differing from the reference in the "
         "seed only, 2 target pairs) or 2 over {P,Q,X}, every unit as first compilation of a process for 5 targets; distinct non-trivial = distinct (target, level, object digest) of a compiled unit")
 ASSUMPTIONS = [
@@ -124,13 +124,14 @@ def expand(d):
 
 
 def shards(tier, cfg, ci, programs, asm_families):
-    """Deterministic list of shard descriptors (= processes) of configuration number ci."""
+    """Deterministic list of shard descriptors (= processes) of a configuration; ci (configuration number + VERIF_SEED)
+    rotates which target pair gets the exact short histories."""
     out = []
     if tier == "quick":
         pairs, nchunk, pattern = PAIRS[:3], 2, "aab"
         progs = [p for p in programs if p not in QUICK_SKIP]
     else:
-        pairs, nchunk = PAIRS, 4
+        pairs, nchunk = PAIRS, 3
         pattern = "aabba" if distance(cfg) <= 1 else "aab"
         progs = [p for p in programs if distance(cfg) <= 1 or p not in HEAVY]
     chunks = [progs[i::nchunk] for i in range(nchunk)]   # interleaved: every chunk starts with a simple unit
@@ -286,6 +287,18 @@ def strip(rec):
 
 # ------------------------------------------------------------------ run
 
+def repo_fingerprint(repo):
+    """(path, size, mtime) of every source file of the compiler under test: it must not change while we compare runs."""
+    out = []
+    for root, dirs, files in os.walk(os.path.join(repo, "ppci")):
+        dirs[:] = sorted(x for x in dirs if x != "__pycache__")
+        for f in sorted(files):
+            if f.endswith(".py"):
+                st = os.stat(os.path.join(root, f))
+                out.append((os.path.join(root, f), st.st_size, st.st_mtime_ns))
+    return out
+
+
 def run(ctx):
     from vf import core
     W = _worker_mod()
@@ -296,13 +309,14 @@ def run(ctx):
     if not aslr_off_available():
         ctx.assumptions.append("setarch -R unavailable: ASLR could not be switched off; irreproducible configurations are reported as harness errors")
 
-    ref_shards = shards(ctx.tier, REF, 0, programs, asm_families)
+    fingerprint = repo_fingerprint(repo)
+    ref_shards = shards(ctx.tier, REF, ctx.seed, programs, asm_families)
     tasks = [("run", REF, d) for d in ref_shards]
     if ctx.tier == "thorough":
         tasks += [("run", REF, d) for d in fresh_shards(programs)]
     dups = []
     for ci, c in enumerate(cfgs[1:], 1):
-        mine = shards(ctx.tier, c, ci, programs, asm_families)
+        mine = shards(ctx.tier, c, ci + ctx.seed, programs, asm_families)
         tasks += [("run", c, d) for d in mine]
         if c == (0, "malloc", 0):
             dups += [("dup", c, d) for d in mine if "pat" in d][:(1 if ctx.tier == "quick" else len(mine))]
@@ -397,8 +411,14 @@ def run(ctx):
             if not ok:
                 raise core.HarnessError("divergence %s did not reproduce on re-run (%s): a configuration process is not deterministic" % (k, detail))
             ctx.violations[k] = (ctx.violations[k][0], detail, witness)
+    except core.HarnessError:
+        if repo_fingerprint(repo) != fingerprint:
+            raise core.HarnessError("%s/ppci was modified while the check was running: results of different processes are not comparable" % repo)
+        raise
     finally:
         pool.shutdown(wait=True, cancel_futures=True)
+    if repo_fingerprint(repo) != fingerprint:
+        raise core.HarnessError("%s/ppci was modified while the check was running: results of different processes are not comparable" % repo)
 
     ctx.states = states
     ctx.transitions = transitions
